@@ -98,6 +98,32 @@ def _flag_tests(fn: ast.FunctionDef):
     return out
 
 
+def _path_dir_steps(tree):
+    """the statements of `change_to_path_dir` that decide the directory: every assignment to `path_dir`, `chdir` and every
+    os.chdir call, unparsed, in source order (so `realpath` instead of the as-named `.absolute`, a dropped `abspath`, or a
+    "no need to chdir" shortcut change the table)"""
+    fn = next((n for n in tree.body if isinstance(n, ast.FunctionDef) and n.name == "change_to_path_dir"), None)
+    if fn is None:
+        return None
+    out = []
+    for node in ast.walk(fn):
+        node._c19_pos = (getattr(node, "lineno", 0), getattr(node, "col_offset", 0))
+    stmts = [n for n in ast.walk(fn) if isinstance(n, (ast.Assign, ast.AnnAssign, ast.Expr, ast.If))]
+    stmts.sort(key=lambda n: n._c19_pos)
+    for st in stmts:
+        if isinstance(st, ast.If):
+            out.append("if " + ast.unparse(st.test))
+        elif isinstance(st, ast.Expr):
+            src = ast.unparse(st)
+            if "chdir" in src or "reset" in src:
+                out.append(src)
+        else:
+            tgt = st.targets[0] if isinstance(st, ast.Assign) else st.target
+            if isinstance(tgt, ast.Name) and tgt.id in ("path_dir", "chdir", "token", "scheme"):
+                out.append("%s = %s" % (tgt.id, ast.unparse(st.value)))
+    return out
+
+
 def probe_check_mode(check, alphabet):
     chars = alphabet + "".join(c for c in OUTSIDERS if c not in alphabet)
 
@@ -168,5 +194,11 @@ def generate(problems):
     body += "/-- (flags tested, os-level probes used) for every `if` of the local branch of `Path.__init__`, in source order;\n"
     body += "`?` marks an `if` that does not raise itself, `-` an `if` that raises without testing a flag -/\n"
     body += "def pathInitTests : List (String × String) := [%s]\n" % ", ".join("(%s, %s)" % (lean_str(a), lean_str(b)) for a, b in tests)
+    steps = _path_dir_steps(tree)
+    if steps is None:
+        problems.append("PathFlags: cannot find change_to_path_dir")
+        steps = []
+    body += "/-- the statements of `change_to_path_dir` that decide which directory is entered and restored, in source order -/\n"
+    body += "def pathDirSteps : List String := [%s]\n" % ", ".join(lean_str(x) for x in steps)
     body += "end Jap.Gen\n"
     write_if_changed("PathFlags.lean", body)
